@@ -30,6 +30,16 @@ pub fn ent(term: u64, index: u64, cmd: ClusterCommand) -> Ent {
     Entry { log_id: lid(term, index), payload: EntryPayload::Normal(cmd) }
 }
 
+pub fn blank_ent(term: u64, index: u64) -> Ent {
+    Entry { log_id: lid(term, index), payload: EntryPayload::Blank }
+}
+
+pub fn membership_ent(term: u64, index: u64, nodes: &[NodeId]) -> Ent {
+    let set: std::collections::BTreeSet<NodeId> = nodes.iter().copied().collect();
+    let map: std::collections::BTreeMap<NodeId, RaftNode> = nodes.iter().map(|n| (*n, RaftNode { addr: format!("n{n}") })).collect();
+    Entry { log_id: lid(term, index), payload: EntryPayload::Membership(openraft::Membership::new(vec![set], map)) }
+}
+
 // ---------------------------------------------------------------------------------------------
 // scratch directories (RocksDB), one per execution, always below mc::scratch_dir(prop)
 
@@ -188,6 +198,10 @@ impl Store {
     }
     pub fn last_applied(&mut self) -> Result<Option<Lid>, SErr> {
         on!(self, s => block_on(s.last_applied_state())).map(|(l, _)| l)
+    }
+    /// `last_applied_state()` of the store: applied log id and stored membership (with its log id).
+    pub fn applied_state_json(&mut self) -> Result<String, SErr> {
+        on!(self, s => block_on(s.last_applied_state())).map(|(l, m)| format!("applied={l:?} membership={m:?}"))
     }
     /// The replicated state as the coordinator reads it (the shared copy published by the store).
     pub fn shared_state_json(&self) -> String {
